@@ -295,6 +295,7 @@ class Run:
         steps = switches = faults = 0
         nt_hashes = set()
         distinct_sum = 0
+        wv = wt = 0
         per_group = []
         for gi, g in enumerate(self.plan):
             grounds = 0
@@ -307,6 +308,8 @@ class Run:
                     switches += s.get('switches', 0)
                     faults += s.get('faults_fired', 0)
                     distinct_sum += s.get('distinct', 0)
+                    wv = max(wv, s.get('word_values_seen', 0))
+                    wt = max(wt, s.get('word_transitions_seen', 0))
                     for k, v in s.get('counters', {}).items():
                         counters[k] = counters.get(k, 0) + v
                     for k, v in s.get('sites', {}).items():
@@ -336,6 +339,7 @@ class Run:
                    injected_futex_faults_fired=faults,
                    atm_sites_present=len(present), atm_sites_hit=len(hit & present) if present else len(hit),
                    atm_sites_not_hit=sorted(present - hit)[:200],
+                   watched_mutex_word_distinct_values_max_per_process=wv, watched_mutex_word_distinct_transitions_max_per_process=wt,
                    inconclusive_executions=self.inconclusive, excluded_executions=self.excluded,
                    build_s=round(self.build_s, 1))
         d = dict(property_id=self.prop, tier=self.tier, seed=self.seed, level=level, coverage=cov,
